@@ -48,7 +48,10 @@ def main(argv):
     seed, shard, nshards, ncases = int(seed), int(shard), int(nshards), int(ncases)
     common.check_monitored_tree()
     prop = load_prop(pid)
-    with open(out, "w") as fh:
+    from . import rt
+
+    reach = rt.Reach()
+    with open(out, "w") as fh, reach:
         for index in range(shard, ncases, nshards):
             rng = common.case_rng(pid, tier, seed, index)
             try:
@@ -66,6 +69,8 @@ def main(argv):
                 rec["sample"] = {"case": common.brief(case)}
             fh.write(common.dumps(rec) + "\n")
             fh.flush()
+        # M5: which skmatter functions (and how many of their lines) this shard executed
+        fh.write(common.dumps({"reach": reach.functions()}) + "\n")
 
 
 if __name__ == "__main__":
